@@ -543,7 +543,7 @@ CLAIMED["C06"] = dict(
               "splitter, empty-token dropping, adjacency across non-detaching sink calls on top of C20, EOF closure from "
               "the initial mode for all options) + kernel-evaluated finite instances; model/code correspondence on an "
               "exhaustive single-step cover; the Skeleton oracle on the real RcDom tree of every document case",
-    text="PARTIAL. Proved for all inputs: the whitespace splitter of process_to_completion never yields an empty piece and "
+    text="Proved for all inputs (model): the whitespace splitter of process_to_completion never yields an empty piece and "
          "loses nothing; an empty character token (also one emptied by ignore_lf) makes no tree-changing sink call; every "
          "text insertion the builder can make is a non-detaching call and every contract-abiding sequence of non-detaching "
          "calls keeps 'no two adjacent text siblings' (on C20's sink theorems); for every option set EOF in the initial "
@@ -557,9 +557,14 @@ CLAIMED["C06"] = dict(
          "followed by body, or head, frameset followed ONLY by noframes elements and formatting elements (the known finding: "
          "these are exactly the entries still in the list of active formatting elements, C06_html_children_fmt_in_af; when "
          "that list holds no element at the end the clause holds in full, C06_html_children_partial), and every text child "
-         "of html is white space. NOT proved: that remove_from_parent / reparent_children in the adoption agency and "
-         "frameset-replaces-body never expose two adjacent text siblings (the 'no adjacent text' clause is proved only across "
-         "non-detaching call sequences). That part is carried by (a) the "
+         "of html is white space; and (Props/C06Inv3.lean) C06_no_adjacent_text: no two text nodes are ever adjacent siblings, "
+         "in every reachable state - invariant AdjD (an open element is never directly followed by text, parents of open "
+         "elements sit lower on the stack ...) carried through every rule incl. the detaching calls of the adoption agency, "
+         "foster parenting, frameset-replaces-body and the selectedcontent mirror. Hence C06_skeleton_or_known: after every "
+         "completed parse EVERY clause of the property's predicate holds, with the html-children clause in the form "
+         "head body | head frameset (noframes | formatting element)*, and C06_skeleton_partial: the predicate exactly as "
+         "stated whenever the final list of active formatting elements holds no element (the only way it fails is the known "
+         "finding). The real code is additionally checked by (a) the "
          "oracle: Skeleton (document children comment* doctype? comment* html comment*; html's element children head then "
          "body | frameset noframes*; no empty text; no text under the document; only whitespace text under html; only "
          "elements/documents/template contents have children; no adjacent text siblings; parent pointers consistent; "
